@@ -85,6 +85,7 @@ pub open spec fn name_spec(name: Name, chrom: &Text, entry: &BedEntry) -> Option
 }
 
 //@extract fn bigtools/src/utils/misc.rs name_for_bed_item
+//@rule R16
 //@rule R8
 //@sub /chrom: &str,/ => chrom: &Text, min=1
 //@sub /Result<String, InvalidNameColError>/ => Result<Text, InvalidNameColError> min=1
